@@ -398,8 +398,11 @@ pub fn check_lookup_constraints<F: RichField + Extendable<D>, const D: usize>(
         lookup_selectors[LookupSelectors::LastLdc as usize] * z_x_lookup_sldcs[num_sldc_polys - 1],
     );
 
-    // Check initial Sum constraint.
-    constraints.push(lookup_selectors[LookupSelectors::InitSre as usize] * z_x_lookup_sldcs[0]);
+    // Check initial Sum constraint. The first Sum transition reads the *last* partial polynomial of
+    // this row (see `prev` below), so that is the value that has to start at zero.
+    constraints.push(
+        lookup_selectors[LookupSelectors::InitSre as usize] * z_x_lookup_sldcs[num_sldc_polys - 1],
+    );
 
     // Check initial RE constraint.
     constraints.push(lookup_selectors[LookupSelectors::InitSre as usize] * z_re);
@@ -568,8 +571,11 @@ pub fn check_lookup_constraints_batch<F: RichField + Extendable<D>, const D: usi
         lookup_selectors[LookupSelectors::LastLdc as usize] * z_x_lookup_sldcs[num_sldc_polys - 1],
     );
 
-    // Check initial Sum constraint.
-    constraints.push(lookup_selectors[LookupSelectors::InitSre as usize] * z_x_lookup_sldcs[0]);
+    // Check initial Sum constraint. The first Sum transition reads the *last* partial polynomial of
+    // this row (see `prev` below), so that is the value that has to start at zero.
+    constraints.push(
+        lookup_selectors[LookupSelectors::InitSre as usize] * z_x_lookup_sldcs[num_sldc_polys - 1],
+    );
 
     // Check initial RE constraint.
     constraints.push(lookup_selectors[LookupSelectors::InitSre as usize] * z_re);
@@ -1026,10 +1032,11 @@ pub fn check_lookup_constraints_circuit<F: RichField + Extendable<D>, const D: u
         z_x_lookup_sldcs[num_sldc_polys - 1],
     ));
 
-    // Check initial Sum constraint.
+    // Check initial Sum constraint. The first Sum transition reads the *last* partial polynomial of
+    // this row, so that is the value that has to start at zero.
     constraints.push(builder.mul_extension(
         lookup_selectors[LookupSelectors::InitSre as usize],
-        z_x_lookup_sldcs[0],
+        z_x_lookup_sldcs[num_sldc_polys - 1],
     ));
 
     // Check initial RE constraint.
